@@ -173,7 +173,7 @@ Definition open_tag (v : env) (path : list nat) (t : anode) (e : einfo) (ks : li
     s' <- add_text_into_open_run v (ostr (e_text e)) s ;; Ok (s', true)
   else if str_eqb tg tag_MATH then
     s' <- insert_text_as_new_run v
-            (TOpen s_latex :: raw (itertext t) ++ [TClose s_latex]) s ;;
+            (TOpen s_latex :: map TTxt (itertext t) ++ [TClose s_latex]) s ;;
     Ok (s', false)
   else if str_eqb tg tag_BR then
     s' <- add_code_into_open_run v [TRaw 10] s ;; Ok (s', true)
@@ -217,7 +217,7 @@ Definition open_tag (v : env) (path : list nat) (t : anode) (e : einfo) (ks : li
     s' <- insert_text_as_new_run v (raw x) s ;; Ok (s', true)
   else if str_eqb tg tag_FORM_DDLIST then
     x <- get_ddList_entry e ks ;;
-    s' <- insert_text_as_new_run v (raw x) s ;; Ok (s', true)
+    s' <- insert_text_as_new_run v (map TTxt x) s ;; Ok (s', true)
   else if str_eqb tg tag_FOOTNOTE_REFERENCE then note_ref v s_footnote e s
   else if str_eqb tg tag_ENDNOTE_REFERENCE then note_ref v s_endnote e s
   else if str_eqb tg tag_IMAGE then image_ref v (attr_r_req e s_embed) s
@@ -225,7 +225,7 @@ Definition open_tag (v : env) (path : list nat) (t : anode) (e : einfo) (ks : li
     match attr_plain e s_descr with
     | None => Ok (s, true)
     | Some d =>
-        s' <- insert_text_as_new_run v (raw (s_alt_prefix ++ d ++ [60])) s ;; Ok (s', true)
+        s' <- insert_text_as_new_run v (raw s_alt_prefix ++ map TTxt d ++ [TRaw 60]) s ;; Ok (s', true)
     end
   else if str_eqb tg tag_IMAGEDATA then image_ref v (attr_r_req e s_id) s
   else if str_eqb tg tag_TAB then
